@@ -11,9 +11,9 @@ def slots : Nat → Nat → List (List Nat)
   | _ + 1, 0 => []
   | n, k + 1 => (List.range (n + 1)).flatMap (fun i => (slots (n - i) k).map (i :: ·))
 
-/-- Grid points of `simplex_grid(length, subdivisions)`: compositions of `2^s` into
-`length` parts (numerators; the real code divides by `2^s`). -/
+/-- Grid points of `simplex_grid(length, subdivisions)`: compositions of `subdivisions`
+into `length` parts (numerators; the real code divides by `subdivisions`). -/
 def simplexGrid (length subdivisions : Nat) : List (List Nat) :=
-  slots (2 ^ subdivisions) length
+  slots subdivisions length
 
 end Dit
